@@ -1,7 +1,222 @@
-(* C18 - placeholder until Stdlib/StdSem.v is integrated *)
-From LF Require Import Base.Opcode Base.Num Stdlib.SExpr Gen.Stdlib_gen.
-Theorem C18_dispatch_total_on_sphere :
-  forall (num : Type) (O : ops num) r cx cy cz,
-    std_dispatch O 26 (r :: cx :: cy :: cz :: nil) = Some (s_sphere r (V3 cx cy cz)).
-Proof. reflexivity. Qed.
-Print Assumptions C18_dispatch_total_on_sphere.
+(* C18 — standard-library shapes, CSG and transforms mean what they say.  Statements only;
+   proofs in Stdlib/StdSem.v and Stdlib/StdGeom.v.
+
+   The constants s_sphere, s_move, ... are those of Gen/Stdlib_gen.v, which
+   translate/gen_stdlib.py regenerates from libfive/stdlib/stdlib_impl.cpp on every run: each
+   C++ function over Trees is a Coq function over terms (Stdlib/SExpr.v).
+     denote RD osem a e r   meaning of term e at environment r over the reals (RD)
+     inside e r  :=  denote ... e r < 0          outside e r  :=  0 < denote ... e r
+     indep p     :=  p's value does not depend on the position (constants, free variables)
+   Parameters are arbitrary position-independent TERMS (the C API accepts trees for every
+   argument); "primes" in comments are their values. *)
+From Coq Require Import Reals List.
+From LF Require Import Base.Opcode Base.Num Base.Arena Base.Sem Tree.Build Tree.BuildSem
+  Stdlib.SExpr Gen.Stdlib_gen Eval.DerivSem Stdlib.StdSem Stdlib.StdGeom.
+Local Open Scope R_scope.
+
+(* building a term through the Tree constructors (all simplification rules of tree.cpp
+   included) yields a node whose value is the term's meaning: ties the generated functions,
+   via C07's constructor theorems, to what Tree::unary / binary / remap really build *)
+Theorem C18_build_denote :
+  forall (num : Type) (O : ops num) (osem : nat -> num -> num -> num -> num), laws O ->
+  forall (e : sx num) (a : arena num),
+    arena_wf a -> base_ok O a -> handles_ok (length a) e ->
+    ok_result O osem a (build O e a) (fun r => denote O osem a e r).
+Proof. exact @build_denote. Qed.
+
+Theorem C18_reals_are_an_instance : laws RD.
+Proof. exact RD_laws. Qed.
+
+Section C18.
+  Variable osem : nat -> R -> R -> R -> R.
+  Variable a : arena R.
+  Notation D := (denote RD osem a).
+  Notation inside := (inside osem a).
+  Notation outside := (outside osem a).
+  Notation indep := (indep osem a).
+  Notation at3 := (@upd_xyz R).
+
+  (* ---- CSG = set operations on inside-ness (for arbitrary shape terms) ---- *)
+  Theorem C18_csg : forall s t r,
+    (inside (s_union s t) r <-> inside s r \/ inside t r) /\
+    (outside (s_union s t) r <-> outside s r /\ outside t r) /\
+    (inside (s_intersection s t) r <-> inside s r /\ inside t r) /\
+    (outside (s_intersection s t) r <-> outside s r \/ outside t r) /\
+    (inside (s_difference s t) r <-> inside s r /\ outside t r) /\
+    (outside (s_difference s t) r <-> outside s r \/ inside t r) /\
+    (inside (s_inverse s) r <-> outside s r) /\
+    (outside (s_inverse s) r <-> inside s r).
+  Proof.
+    intros s t r.
+    split; [apply union_inside|]. split; [apply union_outside|].
+    split; [apply intersection_inside|]. split; [apply intersection_outside|].
+    split; [apply difference_inside|]. split; [apply difference_outside|].
+    split; [apply inverse_inside | apply inverse_outside].
+  Qed.
+
+  (* ---- transforms map the solid by the documented point map ---- *)
+  Theorem C18_move : forall t ox oy oz r x y z, indep ox -> indep oy -> indep oz ->
+    (inside (s_move t (V3 ox oy oz)) (at3 r (x + D ox r) (y + D oy r) (z + D oz r)) <-> inside t (at3 r x y z)).
+  Proof. exact (move_maps osem a). Qed.
+
+  Theorem C18_reflect : forall t c0 r,
+    D (s_reflect_x RD t c0) r = D t (at3 r (2 * D c0 r - ex r) (ey r) (ez r)) /\
+    D (s_reflect_y RD t c0) r = D t (at3 r (ex r) (2 * D c0 r - ey r) (ez r)) /\
+    D (s_reflect_z RD t c0) r = D t (at3 r (ex r) (ey r) (2 * D c0 r - ez r)) /\
+    D (s_reflect_xy t) r = D t (at3 r (ey r) (ex r) (ez r)) /\
+    D (s_reflect_yz t) r = D t (at3 r (ex r) (ez r) (ey r)) /\
+    D (s_reflect_xz t) r = D t (at3 r (ez r) (ey r) (ex r)).
+  Proof.
+    intros t c0 r.
+    split; [apply reflect_x_sem|]. split; [apply reflect_y_sem|]. split; [apply reflect_z_sem|].
+    split; [apply reflect_xy_sem|]. split; [apply reflect_yz_sem | apply reflect_xz_sem].
+  Qed.
+
+  Theorem C18_symmetric : forall t r,
+    (inside (s_symmetric_x t) r <-> inside t (at3 r (Rabs (ex r)) (ey r) (ez r))) /\
+    (inside (s_symmetric_y t) r <-> inside t (at3 r (ex r) (Rabs (ey r)) (ez r))) /\
+    (inside (s_symmetric_z t) r <-> inside t (at3 r (ex r) (ey r) (Rabs (ez r)))).
+  Proof.
+    intros t r. split; [apply symmetric_x_inside|]. split; [apply symmetric_y_inside | apply symmetric_z_inside].
+  Qed.
+
+  Theorem C18_scale_xyz : forall t s1 s2 s3 c1 c2 c3 r x y z,
+    indep s1 -> indep s2 -> indep s3 -> indep c1 -> indep c2 -> indep c3 ->
+    D s1 r <> 0 -> D s2 r <> 0 -> D s3 r <> 0 ->
+    (inside (s_scale_xyz t (V3 s1 s2 s3) (V3 c1 c2 c3))
+        (at3 r (D c1 r + (x - D c1 r) * D s1 r) (D c2 r + (y - D c2 r) * D s2 r)
+               (D c3 r + (z - D c3 r) * D s3 r)) <->
+     inside t (at3 r x y z)).
+  Proof. exact (scale_xyz_maps osem a). Qed.
+
+  Theorem C18_scale_axis : forall t s c0 r c y z, indep s -> indep c0 -> D s r <> 0 ->
+    (inside (s_scale_x t s c0) (at3 r (D c0 r + (c - D c0 r) * D s r) y z) <-> inside t (at3 r c y z)).
+  Proof. exact (scale_x_maps osem a). Qed.
+
+  (* rotations: the solid is carried by a rigid motion (an isometry that fixes the centre),
+     whose inverse is the rotation by the opposite angle *)
+  Theorem C18_rotate : forall t ang cx cy cz r p, indep ang -> indep cx -> indep cy -> indep cz ->
+    let c := (D cx r, D cy r, D cz r) in
+    (inside (s_rotate_x t ang (V3 cx cy cz)) (atp r (mrot_x (- D ang r) c p)) <-> inside t (atp r p)) /\
+    (inside (s_rotate_y t ang (V3 cx cy cz)) (atp r (mrot_y (- D ang r) c p)) <-> inside t (atp r p)) /\
+    (inside (s_rotate_z t ang (V3 cx cy cz)) (atp r (mrot_z (- D ang r) c p)) <-> inside t (atp r p)).
+  Proof.
+    intros t ang cx cy cz r p Ha Hx Hy Hz; cbv zeta.
+    split; [apply rotate_x_maps; assumption|]. split; [apply rotate_y_maps; assumption | apply rotate_z_maps; assumption].
+  Qed.
+
+  (* ---- primitives are negative exactly on their documented open sets ---- *)
+  Theorem C18_sphere : forall rad cx cy cz r, indep rad -> 0 <= D rad r ->
+    (inside (s_sphere rad (V3 cx cy cz)) r <->
+     (ex r - D cx r) ^ 2 + (ey r - D cy r) ^ 2 + (ez r - D cz r) ^ 2 < (D rad r) ^ 2).
+  Proof. exact (sphere_inside osem a). Qed.
+
+  Theorem C18_circle : forall rad cx cy r, indep rad -> 0 <= D rad r ->
+    (inside (s_circle RD rad (V2 cx cy)) r <-> (ex r - D cx r) ^ 2 + (ey r - D cy r) ^ 2 < (D rad r) ^ 2).
+  Proof. exact (circle_inside osem a). Qed.
+
+  Theorem C18_rectangle : forall a1 a2 b1 b2 r,
+    inside (s_rectangle (V2 a1 a2) (V2 b1 b2)) r <-> D a1 r < ex r < D b1 r /\ D a2 r < ey r < D b2 r.
+  Proof. exact (rectangle_inside osem a). Qed.
+
+  Theorem C18_boxes : forall a1 a2 a3 b1 b2 b3 r,
+    (inside (s_box_mitered (V3 a1 a2 a3) (V3 b1 b2 b3)) r <->
+     D a1 r < ex r < D b1 r /\ D a2 r < ey r < D b2 r /\ D a3 r < ez r < D b3 r) /\
+    (inside (s_box_exact RD (V3 a1 a2 a3) (V3 b1 b2 b3)) r <->
+     D a1 r < ex r < D b1 r /\ D a2 r < ey r < D b2 r /\ D a3 r < ez r < D b3 r).
+  Proof. intros; split; [apply box_mitered_inside | apply box_exact_inside]. Qed.
+
+  Theorem C18_extrude : forall t zmin zmax r,
+    inside (s_extrude_z t zmin zmax) r <-> inside t r /\ D zmin r < ez r < D zmax r.
+  Proof. exact (extrude_z_inside osem a). Qed.
+
+  Theorem C18_cylinder : forall rad h b1 b2 b3 r, indep rad -> 0 <= D rad r ->
+    (inside (s_cylinder_z RD rad h (V3 b1 b2 b3)) r <->
+     (ex r - D b1 r) ^ 2 + (ey r - D b2 r) ^ 2 < (D rad r) ^ 2 /\ D b3 r < ez r < D b3 r + D h r).
+  Proof. exact (cylinder_z_inside osem a). Qed.
+
+  Theorem C18_cone : forall radius height b1 b2 b3 r, indep radius -> indep height -> 0 < D height r ->
+    (inside (s_cone_z radius height (V3 b1 b2 b3)) r <->
+     D b3 r < ez r /\
+     sqrt ((ex r - D b1 r) ^ 2 + (ey r - D b2 r) ^ 2) < D radius r * (1 - (ez r - D b3 r) / D height r)).
+  Proof. exact (cone_z_inside osem a). Qed.
+
+  Theorem C18_torus : forall ro ri c1 c2 c3 r, indep ro -> indep ri -> 0 <= D ri r ->
+    (inside (s_torus_z ro ri (V3 c1 c2 c3)) r <->
+     (D ro r - sqrt ((ex r - D c1 r) ^ 2 + (ey r - D c2 r) ^ 2)) ^ 2 + (ez r - D c3 r) ^ 2 < (D ri r) ^ 2).
+  Proof. exact (torus_z_inside osem a). Qed.
+
+  Theorem C18_half_space : forall n1 n2 n3 p1 p2 p3 r,
+    D (s_half_space (V3 n1 n2 n3) (V3 p1 p2 p3)) r =
+    (ex r - D p1 r) * D n1 r + (ey r - D p2 r) * D n2 r + (ez r - D p3 r) * D n3 r.
+  Proof. exact (half_space_sem osem a). Qed.
+
+  (* ---- exact variants return the Euclidean distance to the boundary ---- *)
+  Theorem C18_sphere_exact : forall rad cx cy cz r, indep rad -> 0 <= D rad r ->
+    (forall q, dist q (D cx r, D cy r, D cz r) = D rad r ->
+               Rabs (D (s_sphere rad (V3 cx cy cz)) r) <= dist (pos r) q) /\
+    (exists q, dist q (D cx r, D cy r, D cz r) = D rad r /\
+               dist (pos r) q = Rabs (D (s_sphere rad (V3 cx cy cz)) r)).
+  Proof.
+    intros rad cx cy cz r Hi Hr. split.
+    - intros q Hq. apply (sphere_exact_lower osem a); assumption.
+    - apply (sphere_exact_attained osem a); assumption.
+  Qed.
+
+  Theorem C18_box_exact_outside : forall s1 s2 s3 c1 c2 c3 r,
+    0 <= D s1 r -> 0 <= D s2 r -> 0 <= D s3 r ->
+    ~ inside (s_box_exact_centered RD (V3 s1 s2 s3) (V3 c1 c2 c3)) r ->
+    let v := D (s_box_exact_centered RD (V3 s1 s2 s3) (V3 c1 c2 c3)) r in
+    let c := bc_centered osem a c1 c2 c3 r in let h := bh_centered osem a s1 s2 s3 r in
+    0 <= v /\
+    (exists q, in_closed_box c h q /\ dist2 (pos r) q = v * v) /\
+    (forall q, in_closed_box c h q -> v * v <= dist2 (pos r) q).
+  Proof. exact (box_exact_centered_outside osem a). Qed.
+
+  Theorem C18_box_exact_inside : forall s1 s2 s3 c1 c2 c3 r,
+    inside (s_box_exact_centered RD (V3 s1 s2 s3) (V3 c1 c2 c3)) r ->
+    let v := D (s_box_exact_centered RD (V3 s1 s2 s3) (V3 c1 c2 c3)) r in
+    let c := bc_centered osem a c1 c2 c3 r in let h := bh_centered osem a s1 s2 s3 r in
+    v < 0 /\
+    (forall q, ~ in_open_box c h q -> v * v <= dist2 (pos r) q) /\
+    (exists q, in_closed_box c h q /\ ~ in_open_box c h q /\ dist2 (pos r) q = v * v).
+  Proof.
+    intros s1 s2 s3 c1 c2 c3 r Hin. cbv zeta.
+    destruct (box_exact_centered_inside_dist osem a s1 s2 s3 c1 c2 c3 r Hin) as (_ & _ & H3 & H4 & H5).
+    repeat split; assumption.
+  Qed.
+End C18.
+
+(* the rotation maps are rigid motions *)
+Theorem C18_rotations_rigid : forall th c p q,
+  (dist2 (mrot_x th c p) (mrot_x th c q) = dist2 p q /\ mrot_x th c c = c) /\
+  (dist2 (mrot_y th c p) (mrot_y th c q) = dist2 p q /\ mrot_y th c c = c) /\
+  (dist2 (mrot_z th c p) (mrot_z th c q) = dist2 p q /\ mrot_z th c c = c).
+Proof.
+  intros th c p q.
+  split; [split; [apply mrot_x_isometry | apply mrot_x_fix]|].
+  split; [split; [apply mrot_y_isometry | apply mrot_y_fix] | split; [apply mrot_z_isometry | apply mrot_z_fix]].
+Qed.
+
+Print Assumptions C18_build_denote.
+Print Assumptions C18_reals_are_an_instance.
+Print Assumptions C18_csg.
+Print Assumptions C18_move.
+Print Assumptions C18_reflect.
+Print Assumptions C18_symmetric.
+Print Assumptions C18_scale_xyz.
+Print Assumptions C18_scale_axis.
+Print Assumptions C18_rotate.
+Print Assumptions C18_sphere.
+Print Assumptions C18_circle.
+Print Assumptions C18_rectangle.
+Print Assumptions C18_boxes.
+Print Assumptions C18_extrude.
+Print Assumptions C18_cylinder.
+Print Assumptions C18_cone.
+Print Assumptions C18_torus.
+Print Assumptions C18_half_space.
+Print Assumptions C18_sphere_exact.
+Print Assumptions C18_box_exact_outside.
+Print Assumptions C18_box_exact_inside.
+Print Assumptions C18_rotations_rigid.
